@@ -6,7 +6,7 @@ E4: the sequence of k tried by solve() vs the proved search model (Search.v) on 
 import collections
 from fractions import Fraction as F
 import networkx as nx
-import common, gen, gen2, props, oracles
+import common, gen, gen2, props, oracles, voracle
 
 LEVEL = "proof"
 EXPLANATION = ("Props/C03.v: the k-search returns the least feasible k >= lower bound when every per-k model is decided exactly "
@@ -190,6 +190,14 @@ def run(ctx):
         except Exception as e:
             ctx.report("MinFlowDecomp raised " + repr(e), rep); continue
         kmin, wit = oracle_min(info)
+        if info["is_int"] and not info["node"]:
+            # integer edge-weighted instances: the minimum decided by the VERIFIED exhaustive oracle (FlowOracle.min_fd_correct)
+            vk = voracle.min_fd(ctx, info["G"], "flow", ignore=info["ignore"], cons=info["cons"], kmax=4)
+            if vk not in ("too-large", "not-integer"):
+                ctx.count("E2_minimum", "decided_by_verified_oracle")
+                if kmin != vk:
+                    ctx.report(f"harness inconsistency: Python oracle says {kmin}, the verified flow oracle says {vk}", rep, concrete=False)
+                kmin = vk
         ctx.case(describe(info), nontrivial=(kmin or 0) >= 2,
                  sample={"edges": describe(info)["edges"], "kwargs": describe(info)["kwargs"], "oracle_min": kmin})
         ctx.dist("opts:" + ",".join(sorted(k for k, v in info["kwargs"]["optimization_options"].items() if v)) or "default")
